@@ -108,7 +108,7 @@ DECODER_REQS = [
         {'id': 'point-valid', 'what': 'G1 point validity gates acceptance', 'gate_callee': VALIDITY, 'cover': ['bytes']},
         {'id': 'points-nonidentity', 'what': 'identity proof points refused', 'alts': IDENT_ALTS, 'cover': ['bytes']},
         {'id': 'scalars-nonzero', 'what': 'octets_to_proof: a zero scalar is refused (fixed scalars and, quantified over all of them, the hidden-message responses)',
-         'alts': [{'gate_callee': ['is_zero']}, {'gate_callee': ['PartialEq'], 'const': ['ZERO']}], 'cover': ['bytes'], 'min_gates': 4},
+         'alts': [{'gate_callee': ['is_zero']}, {'gate_callee': ['PartialEq'], 'const': ['ZERO']}], 'cover': ['bytes'], 'min_gates': 2},
     ]),
     ('bbsplus::proof::BBSplusZKPoK::from_bytes', [
         {'id': 'scalar-range', 'what': 'scalar < r gates acceptance', 'gate_callee': VALIDITY, 'cover': ['bytes']},
@@ -126,10 +126,10 @@ DECODER_REQS = [
 ZERO_ALTS = [{'gate_callee': ['is_zero']}, {'gate_callee': ['PartialEq'], 'const': ['ZERO']}]
 PROOF_VALUE_REQS = [
     (POK + 'proof_verify', [
-        {'id': 'scalars-nonzero', 'what': 'a proof with a zero scalar is refused by the verifier (as octets_to_proof does)', 'alts': ZERO_ALTS, 'cover': ['self'], 'pure': ['self'], 'min_gates': 4},
+        {'id': 'scalars-nonzero', 'what': 'a proof with a zero scalar is refused by the verifier (as octets_to_proof does)', 'alts': ZERO_ALTS, 'cover': ['self'], 'pure': ['self'], 'min_gates': 2},
     ]),
     (POK + 'blind_proof_verify', [
-        {'id': 'scalars-nonzero', 'what': 'a proof with a zero scalar is refused by the verifier (as octets_to_proof does)', 'alts': ZERO_ALTS, 'cover': ['self'], 'pure': ['self'], 'min_gates': 4},
+        {'id': 'scalars-nonzero', 'what': 'a proof with a zero scalar is refused by the verifier (as octets_to_proof does)', 'alts': ZERO_ALTS, 'cover': ['self'], 'pure': ['self'], 'min_gates': 2},
     ]),
 ]
 VERIFY_VALUE_REQS = [
